@@ -105,7 +105,12 @@ def run(ctx):
         L = n.rf(subst_syms(trip, mapping))
         if fam['family'].get('kt_ratio') == 'Some':
             r = n.atom('self.kt_ratio#Some.0')
-            rep.check(got.equals(n.const(1) - r), 'R2', 'factor:kt_ratio=Some', where(bb), 'factor = 1 - kt_ratio',
+            # 1 - r, possibly floored at 0: the same factor for every ratio in [0, 1]; beyond 1 the floor is what keeps the
+            # temperature from changing sign (C05: a zero temperature must stay +0)
+            want = n.const(1) - r
+            floored = n.fn('max', n.const(0), want, commutative=True)
+            rep.check(got.equals(want) or got.equals(floored), 'R2', 'factor:kt_ratio=Some', where(bb),
+                      'factor = 1 - kt_ratio%s' % (' (floored at 0)' if got.equals(floored) else ''),
                       'with a cooling ratio r the factor is %s, expected 1 - r' % got.canon()[:200])
             n_formula += 1
         elif fam['family'].get('kt_finish') == 'Some':
